@@ -12,12 +12,19 @@ ASSUMPTIONS = [
 NAME = Cls('NARROW', minus='"\'\\{}')
 
 
-def _custom(handled, marker):
-    """a partial renderer: handlers only for the classes in `handled`; everything else falls back to ''"""
+def _custom(handled, marker, base='base', as_sql=True):
+    """a partial renderer: handlers only for the classes in `handled`; everything else falls back to ''
+    base 'base': derived from BaseRenderer; 'default': derived from the default SQL / DBML renderer class with a registry of its own"""
     from pydbml.renderer.base import BaseRenderer
     import pydbml.classes as C
+    if base == 'default':
+        from pydbml.renderer.sql.default import DefaultSQLRenderer
+        from pydbml.renderer.dbml.default import DefaultDBMLRenderer
+        Base = DefaultSQLRenderer if as_sql else DefaultDBMLRenderer
+    else:
+        Base = BaseRenderer
 
-    class Partial(BaseRenderer):
+    class Partial(Base):
         model_renderers = {}
 
         @classmethod
@@ -151,16 +158,24 @@ def default_agreement(K=1, fix=None):
     return Harness(body, args, describe=lambda a: dict(a), bounds={'K': K}, fixed=fix)
 
 
-def configured(route, mask, K=1):
+def configured(route, mask, K=1, base='base'):
     """custom partial renderer: attached elements render through it, unhandled types give '', detached ones use the defaults"""
-    args = [('with_tables', 'bool'), ('which', IntRange(0, 1))] + hole_args('n', K, NAME)
+    args = [('with_tables', 'bool'), ('which', IntRange(0, 1)), ('warm', 'bool')] + hole_args('n', K, NAME)
 
     def body(a):
-        from pydbml.classes import Table, Column, Enum, EnumItem, StickyNote, Project
+        from pydbml.classes import Table, Column, Enum, EnumItem, StickyNote, Project, Reference
         nm = text_of(a, 'n', K)
         handled = [k for i, k in enumerate(KINDS) if (mask >> i) & 1]
-        R = _custom(handled, 'M')
         as_sql = a['which'] == 0
+        plain, plain_sql, plain_dbml = None, None, None
+        if a['warm']:
+            # a database with the default renderers is rendered first (and must render the same afterwards)
+            plain = _build(a, 'w', True)
+            try:
+                plain_sql, plain_dbml = plain.sql, plain.dbml
+            except Exception:
+                return 'default rendering raised'
+        R = _custom(handled, 'M', base, as_sql)
         if route == 'database':
             db = _build(a, nm, a['with_tables'], sqlr=R if as_sql else None, dbmlr=None if as_sql else R)
         else:
@@ -221,9 +236,29 @@ def configured(route, mask, K=1):
         else:
             if e.dbml != DefaultDBMLRenderer.render(e) or n.dbml != DefaultDBMLRenderer.render(n) or 'zz' not in e.dbml or 'txt' not in n.dbml:
                 return 'detached element is not rendered by the default DBML renderer'
+        if plain is not None:
+            if plain.sql != plain_sql or plain.dbml != plain_dbml:
+                return 'renderings of a database with the default renderers changed after a custom renderer was used'
+            e2 = plain.enums[0]
+            if e2.sql != DefaultSQLRenderer.render(e2) or e2.dbml != DefaultDBMLRenderer.render(e2) or 'e_w' not in e2.dbml:
+                return 'element of a database with the default renderers is not rendered by them'
+        # an element removed from the database - here through an equal but distinct object - is detached: default renderers
+        if route == 'database' and a['with_tables']:
+            stored = db.refs[2]
+            twin = Reference('>', list(stored.col1), list(stored.col2), name=stored.name)
+            try:
+                db.delete(twin)
+            except Exception:
+                return 'deleting a contained reference through an equal object raised'
+            if any(r is stored for r in db.refs):
+                return 'the reference is still contained after its deletion'
+            want = DefaultSQLRenderer.render(stored) if as_sql else DefaultDBMLRenderer.render(stored)
+            if text(stored) != want or 'r_' not in want:
+                return 'a reference removed from the database is still rendered by the database\'s configured renderer'
         return ''
 
-    return Harness(body, args, describe=lambda a: dict(a, route=route, mask=mask), bounds={'route': route, 'K': K, 'kinds': KINDS, 'mask': mask})
+    return Harness(body, args, describe=lambda a: dict(a, route=route, mask=mask, base=base),
+                   bounds={'route': route, 'K': K, 'kinds': KINDS, 'mask': mask, 'custom class derived from': base})
 
 
 def instances(tier):
@@ -237,4 +272,9 @@ def instances(tier):
         for m in (masks if route in ('database', 'parser') else masks[1:3]):
             out.append({'name': f'configured/{route}/mask{m}', 'factory': 'configured', 'params': {'route': route, 'mask': m, 'K': K},
                         'timeout': T1, 'native_limit': 60})
+    # the custom class derived from the default renderer class (own registry), used after the defaults have rendered
+    for route in ('database', 'parser'):
+        for m in (masks[1:3] if quick else masks):
+            out.append({'name': f'configured/{route}/subclass_of_default/mask{m}', 'factory': 'configured',
+                        'params': {'route': route, 'mask': m, 'K': K, 'base': 'default'}, 'timeout': T1, 'native_limit': 60})
     return out
